@@ -166,13 +166,29 @@ Fixpoint wf_from (n : sid) (evs : list event) : bool :=
   end.
 
 (* ---------------------------------------------------------------- client side *)
+(* A proxy has a connection (or none) and a sequence counter.  A _StreamResultIterator is the state
+   machine {proxy reference | dropped (None); stream id; own sequence counter}: client.py keeps no other
+   "ended" flag — the iterator has ended for good exactly when its proxy reference is dropped, which
+   happens in close() and in the except-clause of __next__.  Which answers make __next__ drop the
+   reference is the [cpolicy], generated from the except-clause in the source (Gen/GenStreams.v). *)
 Record proxy := { p_conn : option conn; p_seq : N }.
 Record citer := { ci_proxy : option N; ci_sid : sid; ci_seq : N }.
 Record cstate := { srv : state; next_conn : conn; proxies : list proxy; iters : list citer }.
 
+Record cpolicy := { drop_stop : bool;      (* StopIteration from the server *)
+                    drop_raised : bool;    (* an exception raised by the server-side iterator *)
+                    drop_error : bool;     (* PyroError "item stream terminated" *)
+                    drop_comm : bool }.    (* CommunicationError inside _pyroInvoke *)
+
+(* a transport failure in the middle of a next(): the request never reaches the daemon, or the daemon
+   handles it and the reply is lost; either way _pyroInvoke raises a CommunicationError and releases
+   the proxy's connection *)
+Inductive fault := ReqLost | ReplyLost.
+
 Inductive cop :=
 | COpen (p : N) (items : list item)
 | CNext (h : N)
+| CNextFault (h : N) (f : fault)
 | CClose (h : N)
 | CRelease (p : N)
 | CReconnect (p : N)
@@ -181,8 +197,10 @@ Inductive cop :=
 | CHousekeep
 | CTick (dt : N).
 
+(* CCommErr carries, as a ghost the client cannot see, the answer that was lost in transit (if any) *)
 Inductive cresp :=
-| COpened (id : sid) | CNoStreaming | CItem (v : N) | CStop | CRaised (e : N) | CError | CClosedLocal | CNone.
+| COpened (id : sid) | CNoStreaming | CItem (v : N) | CStop | CRaised (e : N) | CError | CClosedLocal
+| CCommErr (lost : option response) | CNone.
 
 Fixpoint set_nth {A} (n : nat) (x : A) (l : list A) : list A :=
   match l, n with
@@ -196,8 +214,8 @@ Definition setN {A} (l : list A) (n : N) (x : A) : list A := set_nth (N.to_nat n
 Definition cinit (t0 : N) (nprox : N) : cstate :=
   {| srv := init t0; next_conn := 0; proxies := repeat {| p_conn := None; p_seq := 0 |} (N.to_nat nprox); iters := [] |}.
 
-(* one server event on behalf of the client; the events issued are collected (newest last) *)
-Definition cresult := (cstate * cresp * list event)%type.
+(* new client state, the client's answer, and the server events (with their answers) it caused *)
+Definition cresult := (cstate * cresp * trace)%type.
 
 Definition with_srv (cs : cstate) (s : state) : cstate :=
   {| srv := s; next_conn := next_conn cs; proxies := proxies cs; iters := iters cs |}.
@@ -219,7 +237,7 @@ Definition ensure_conn (cs : cstate) (p : N) (px : proxy) : cstate * proxy * con
 Definition bump (px : proxy) : proxy := {| p_conn := p_conn px; p_seq := p_seq px + 1 |}.
 
 Definition srv_step (cfg : config) (cs : cstate) (ev : event) : cstate * response :=
-  let '(s, r) := step cfg (srv cs) ev in (with_srv cs s, r).
+  (with_srv cs (fst (step cfg (srv cs) ev)), snd (step cfg (srv cs) ev)).
 
 Definition next_resp (r : response) : cresp :=
   match r with
@@ -227,14 +245,36 @@ Definition next_resp (r : response) : cresp :=
   | _ => CNone
   end.
 
-Definition release (cfg : config) (cs : cstate) (p : N) (px : proxy) : cstate * list event :=
-  match p_conn px with
-  | None => (cs, [])
-  | Some c => let '(cs1, _) := srv_step cfg cs (Disconnect c) in
-              (with_proxy cs1 p {| p_conn := None; p_seq := p_seq px |}, [Disconnect c])
+(* does __next__ drop its proxy reference on this answer? *)
+Definition drops (pol : cpolicy) (r : response) : bool :=
+  match r with
+  | RStop => drop_stop pol | RRaised _ => drop_raised pol | RError => drop_error pol | _ => false
   end.
 
-Definition cstep (cfg : config) (cs : cstate) (op : cop) : cresult :=
+Definition release (cfg : config) (cs : cstate) (p : N) (px : proxy) : cstate * trace :=
+  match p_conn px with
+  | None => (cs, [])
+  | Some c => let '(cs1, r) := srv_step cfg cs (Disconnect c) in
+              (with_proxy cs1 p {| p_conn := None; p_seq := p_seq px |}, [(Disconnect c, r)])
+  end.
+
+(* the iterator's own checks in __next__, before anything is sent *)
+Inductive ready := NotAnIter | Dropped | Disconnected | Ready (it : citer) (p : N) (px : proxy) (c : conn).
+Definition iter_ready (cs : cstate) (h : N) : ready :=
+  match nthN (iters cs) h with
+  | None => NotAnIter
+  | Some it =>
+      match ci_proxy it with
+      | None => Dropped
+      | Some p =>
+          match nthN (proxies cs) p with
+          | None => NotAnIter
+          | Some px => match p_conn px with None => Disconnected | Some c => Ready it p px c end
+          end
+      end
+  end.
+
+Definition cstep (pol : cpolicy) (cfg : config) (cs : cstate) (op : cop) : cresult :=
   match op with
   | COpen p items =>
       match nthN (proxies cs) p with
@@ -247,34 +287,45 @@ Definition cstep (cfg : config) (cs : cstate) (op : cop) : cresult :=
           match r with
           | ROpened id =>
               ({| srv := srv cs3; next_conn := next_conn cs3; proxies := proxies cs3;
-                  iters := iters cs3 ++ [{| ci_proxy := Some p; ci_sid := id; ci_seq := p_seq px2 |}] |}, COpened id, [Open c items])
+                  iters := iters cs3 ++ [{| ci_proxy := Some p; ci_sid := id; ci_seq := p_seq px2 |}] |},
+               COpened id, [(Open c items, r)])
           | _ =>
               (* "server is not configured to allow streaming" is a ProtocolError, i.e. a CommunicationError
                  raised inside _pyroInvoke: the proxy releases its connection *)
-              let '(cs4, evs) := release cfg cs3 p px2 in
-              (cs4, CNoStreaming, Open c items :: evs)
+              let '(cs4, tr) := release cfg cs3 p px2 in
+              (cs4, CNoStreaming, (Open c items, r) :: tr)
           end
       end
   | CNext h =>
-      match nthN (iters cs) h with
-      | None => (cs, CNone, [])
-      | Some it =>
-          match ci_proxy it with
-          | None => (cs, CStop, [])
-          | Some p =>
-              match nthN (proxies cs) p with
-              | None => (cs, CNone, [])
-              | Some px =>
-                  match p_conn px with
-                  | None => (cs, CClosedLocal, [])
-                  | Some c =>
-                      let cs1 := with_proxy cs p (bump px) in
-                      let '(cs2, r) := srv_step cfg cs1 (Next c (ci_sid it)) in
-                      let it1 := {| ci_proxy := match r with RStop => None | _ => ci_proxy it end;
-                                    ci_sid := ci_sid it; ci_seq := ci_seq it + 1 |} in
-                      (with_iter cs2 h it1, next_resp r, [Next c (ci_sid it)])
-                  end
-              end
+      match iter_ready cs h with
+      | NotAnIter => (cs, CNone, [])
+      | Dropped => (cs, CStop, [])
+      | Disconnected => (cs, CClosedLocal, [])
+      | Ready it p px c =>
+          let cs1 := with_proxy cs p (bump px) in
+          let '(cs2, r) := srv_step cfg cs1 (Next c (ci_sid it)) in
+          let it1 := {| ci_proxy := if drops pol r then None else ci_proxy it;
+                        ci_sid := ci_sid it; ci_seq := ci_seq it + 1 |} in
+          (with_iter cs2 h it1, next_resp r, [(Next c (ci_sid it), r)])
+      end
+  | CNextFault h f =>
+      match iter_ready cs h with
+      | NotAnIter => (cs, CNone, [])
+      | Dropped => (cs, CStop, [])
+      | Disconnected => (cs, CClosedLocal, [])
+      | Ready it p px c =>
+          let px1 := bump px in
+          let cs1 := with_proxy cs p px1 in
+          let it1 := {| ci_proxy := if drop_comm pol then None else ci_proxy it;
+                        ci_sid := ci_sid it; ci_seq := ci_seq it + 1 |} in
+          match f with
+          | ReqLost =>
+              let '(cs2, tr) := release cfg cs1 p px1 in
+              (with_iter cs2 h it1, CCommErr None, tr)
+          | ReplyLost =>
+              let '(cs2, r) := srv_step cfg cs1 (Next c (ci_sid it)) in
+              let '(cs3, tr) := release cfg cs2 p px1 in
+              (with_iter cs3 h it1, CCommErr (Some r), (Next c (ci_sid it), r) :: tr)
           end
       end
   | CClose h =>
@@ -282,41 +333,34 @@ Definition cstep (cfg : config) (cs : cstate) (op : cop) : cresult :=
       | None => (cs, CNone, [])
       | Some it =>
           let done := {| ci_proxy := None; ci_sid := ci_sid it; ci_seq := ci_seq it |} in
-          match ci_proxy it with
-          | None => (cs, CNone, [])
-          | Some p =>
-              match nthN (proxies cs) p with
-              | None => (cs, CNone, [])
-              | Some px =>
-                  match p_conn px with
-                  | None => (with_iter cs h done, CNone, [])
-                  | Some c =>
-                      if ci_seq it =? p_seq px
-                      then (* still in sync: close over the proxy's own connection *)
-                        let cs1 := with_proxy cs p (bump px) in
-                        let '(cs2, _) := srv_step cfg cs1 (CloseStream c (ci_sid it)) in
-                        (with_iter cs2 h done, CNone, [CloseStream c (ci_sid it)])
-                      else (* diverged: a temporary copy of the proxy connects, closes the stream, disconnects *)
-                        let '(cs1, c') := fresh_conn cs in
-                        let '(cs2, _) := srv_step cfg cs1 (CloseStream c' (ci_sid it)) in
-                        let '(cs3, _) := srv_step cfg cs2 (Disconnect c') in
-                        (with_iter cs3 h done, CNone, [CloseStream c' (ci_sid it); Disconnect c'])
-                  end
-              end
+          match iter_ready cs h with
+          | NotAnIter | Dropped => (cs, CNone, [])
+          | Disconnected => (with_iter cs h done, CNone, [])
+          | Ready _ p px c =>
+              if ci_seq it =? p_seq px
+              then (* still in sync: close over the proxy's own connection *)
+                let cs1 := with_proxy cs p (bump px) in
+                let '(cs2, r) := srv_step cfg cs1 (CloseStream c (ci_sid it)) in
+                (with_iter cs2 h done, CNone, [(CloseStream c (ci_sid it), r)])
+              else (* diverged: a temporary copy of the proxy connects, closes the stream, disconnects *)
+                let '(cs1, c') := fresh_conn cs in
+                let '(cs2, r) := srv_step cfg cs1 (CloseStream c' (ci_sid it)) in
+                let '(cs3, r') := srv_step cfg cs2 (Disconnect c') in
+                (with_iter cs3 h done, CNone, [(CloseStream c' (ci_sid it), r); (Disconnect c', r')])
           end
       end
   | CRelease p =>
       match nthN (proxies cs) p with
       | None => (cs, CNone, [])
-      | Some px => let '(cs1, evs) := release cfg cs p px in (cs1, CNone, evs)
+      | Some px => let '(cs1, tr) := release cfg cs p px in (cs1, CNone, tr)
       end
   | CReconnect p =>
       match nthN (proxies cs) p with
       | None => (cs, CNone, [])
       | Some px =>
-          let '(cs1, evs) := release cfg cs p px in
+          let '(cs1, tr) := release cfg cs p px in
           let '(cs2, _, _) := ensure_conn cs1 p {| p_conn := None; p_seq := p_seq px |} in
-          (cs2, CNone, evs)
+          (cs2, CNone, tr)
       end
   | CRawNext p id =>
       match nthN (proxies cs) p with
@@ -325,7 +369,7 @@ Definition cstep (cfg : config) (cs : cstate) (op : cop) : cresult :=
           let '(cs1, px1, c) := ensure_conn cs p px in
           let cs2 := with_proxy cs1 p (bump px1) in
           let '(cs3, r) := srv_step cfg cs2 (Next c id) in
-          (cs3, next_resp r, [Next c id])
+          (cs3, next_resp r, [(Next c id, r)])
       end
   | CRawClose p id =>
       match nthN (proxies cs) p with
@@ -333,29 +377,50 @@ Definition cstep (cfg : config) (cs : cstate) (op : cop) : cresult :=
       | Some px =>
           let '(cs1, px1, c) := ensure_conn cs p px in
           let cs2 := with_proxy cs1 p (bump px1) in
-          let '(cs3, _) := srv_step cfg cs2 (CloseStream c id) in
-          (cs3, CNone, [CloseStream c id])
+          let '(cs3, r) := srv_step cfg cs2 (CloseStream c id) in
+          (cs3, CNone, [(CloseStream c id, r)])
       end
-  | CHousekeep => let '(cs1, _) := srv_step cfg cs Housekeep in (cs1, CNone, [Housekeep])
-  | CTick dt => let '(cs1, _) := srv_step cfg cs (Tick dt) in (cs1, CNone, [Tick dt])
+  | CHousekeep => let '(cs1, r) := srv_step cfg cs Housekeep in (cs1, CNone, [(Housekeep, r)])
+  | CTick dt => let '(cs1, r) := srv_step cfg cs (Tick dt) in (cs1, CNone, [(Tick dt, r)])
   end.
 
-Fixpoint crun (cfg : config) (cs : cstate) (ops : list cop) : cstate * list (cop * cresp) * list event :=
+Definition ctrace := list (cop * cresp).
+Fixpoint crun (pol : cpolicy) (cfg : config) (cs : cstate) (ops : list cop) : cstate * ctrace * trace :=
   match ops with
   | [] => (cs, [], [])
   | op :: ops' =>
-      let '(cs1, r, evs) := cstep cfg cs op in
-      let '(cs2, tr, evs') := crun cfg cs1 ops' in
-      (cs2, (op, r) :: tr, evs ++ evs')
+      let '(cs1, r, tr) := cstep pol cfg cs op in
+      let '(cs2, ctr, tr') := crun pol cfg cs1 ops' in
+      (cs2, (op, r) :: ctr, tr ++ tr')
   end.
 
-(* what one client-side stream object received *)
-Fixpoint received (tr : list (cop * cresp)) (h : N) : list N :=
-  match tr with
-  | [] => []
-  | (CNext k, CItem v) :: tr' => if k =? h then v :: received tr' h else received tr' h
-  | _ :: tr' => received tr' h
+(* ---- reading a client history ---- *)
+(* what the server handed out for client stream h (an item that arrived, or one whose reply was lost) *)
+Definition entry_taken (h : N) (e : cop * cresp) : list N :=
+  match e with
+  | (CNext k, CItem v) => if k =? h then [v] else []
+  | (CNextFault k _, CCommErr (Some (RItem v))) => if k =? h then [v] else []
+  | _ => []
   end.
+Definition taken (tr : ctrace) (h : N) : list N := flat_map (entry_taken h) tr.
+(* what client stream object h actually yielded *)
+Definition entry_received (h : N) (e : cop * cresp) : list N :=
+  match e with
+  | (CNext k, CItem v) => if k =? h then [v] else []
+  | _ => []
+  end.
+Definition received (tr : ctrace) (h : N) : list N := flat_map (entry_received h) tr.
+(* the item lists of the streams the client was handed, in order of handle number *)
+Definition entry_opened (e : cop * cresp) : list (list item) :=
+  match e with (COpen _ items, COpened _) => [items] | _ => [] end.
+Definition copened (tr : ctrace) : list (list item) := flat_map entry_opened tr.
+
+(* does the operation ask for the next item of client stream h? *)
+Definition asks (h : N) (op : cop) : bool :=
+  match op with CNext k | CNextFault k _ => k =? h | _ => false end.
+Definition is_raw (op : cop) : bool := match op with CRawNext _ _ | CRawClose _ _ => true | _ => false end.
+Definition reply_lost_on (h : N) (op : cop) : bool :=
+  match op with CNextFault k ReplyLost => k =? h | _ => false end.
 
 (* quiescence: every connection in [conns] ends, the linger period passes, housekeeping runs *)
 Definition quiesce (conns : list conn) (dt : N) : list event := map Disconnect conns ++ [Tick dt; Housekeep].
